@@ -184,6 +184,15 @@ def b5(run, tu):
     al = [d for d in defs.get('arraylength', []) if '/' in d[0]]
     ok = len(al) == 1 and al[0][0] == 'view->len / ct->ct_itemdescr->ct_size' and 'T:ct->ct_itemdescr->ct_size > 0' in g.fact_texts(g.node_of(al[0][1]).id)
     run.ob('B5/open-array-gets-len-div-itemsize-items', fn, 'arraylength = view->len / itemsize', ok, tu.where(al[0][1]) if al else tu.where(f))
+    # any other definition of the item count from the byte count is only right for one-byte items
+    for txt, x in defs.get('arraylength', []):
+        if txt.replace(' ', '') in ('view->len',):
+            facts = g.fact_texts(g.node_of(x).id)
+            one = any(f.replace(' ', '') in ('T:ct->ct_itemdescr->ct_size==1', 'F:ct->ct_itemdescr->ct_size!=1') for f in facts)
+            if any(f.replace(' ', '') == 'T:ct->ct_flags&%d' % rules.macro_flags(tu, 'CT_')['CT_POINTER'] for f in facts):
+                continue      # pointer ctypes: the value is a byte count kept for the record, no item count exists
+            run.ob('B5/byte-count-used-as-item-count-only-for-one-byte-items', fn, 'arraylength = view->len', one, tu.where(x),
+                   'guarded by %s: for wider items the array would claim len(buffer) items instead of len(buffer) // itemsize' % sorted(f for f in facts if 'itemdescr' in f))
     lens = [d[0] for d in defs.get('((CDataObject_frombuf *)cd)->length', []) + defs.get('cd->length', [])]
     stored = [cx.render(r) for l, r, op, x in cx.assignments(f) if cx.lhs_text(l).endswith('->length')]
     run.ob('B5/recorded-length-is-the-computed-one', fn, '->length = arraylength', stored == ['arraylength'], tu.where(f), str(stored))
@@ -201,8 +210,28 @@ def b5(run, tu):
     fr = [n.id for n in g.nodes if n.ast is not None and any(cx.render(cx.call_args(c)[0]) == 'view' for c in cx.calls_in(n.ast, 'PyObject_Free'))]
     okf = bool(fr) and all(g.exit.id not in g.reach([t], avoid=fr + xfer) for t, l in acq[0].succ)
     run.ob('B5/view-struct-freed-or-owned', fn, 'PyObject_Free(view) on every failing exit', okf, tu.where(acq[0].ast))
-    # contiguous-buffer helper releases when it rejects
+    # contiguous-buffer helper: what it hands out is one run of view->len bytes
     h = cfg_of(tu, '_my_PyObject_GetContiguousBuffer')
+    hf = tu.func('_my_PyObject_GetContiguousBuffer')
+    gb = [c for c in cx.calls_in(hf) if cx.callee_name(c) == 'PyObject_GetBuffer']
+    run.need(len(gb) == 1, '_my_PyObject_GetContiguousBuffer: expected one PyObject_GetBuffer')
+    flagarg = cx.strip(cx.call_args(gb[0])[2], casts=True)
+    arms = [flagarg]
+    if flagarg.get('kind') == 'ConditionalOperator':
+        arms = cx.kids(flagarg)[1:3]
+    it = absint.Interp(h, {})
+    vals = [it.ev(a, {}) for a in arms]
+    run.need(all(isinstance(v, Con) for v in vals), '_my_PyObject_GetContiguousBuffer: buffer request flags are not constants')
+    PyBUF_ND, PyBUF_STRIDES_BIT, PyBUF_INDIRECT_BIT = 0x0008, 0x0010, 0x0100
+    simple = all((v.v & (PyBUF_STRIDES_BIT | PyBUF_INDIRECT_BIT)) == 0 for v in vals)
+    succ_rets = [n for n in h.nodes if n.kind == 'return' and rules.return_value(n) == '0']
+    contig = h.edges_of(lambda cn, l: (cx.render(cn.ast).replace(' ', '').startswith('!PyBuffer_IsContiguous(view') and l == 'F') or
+                        (cx.render(cn.ast).replace(' ', '').startswith('PyBuffer_IsContiguous(view') and l == 'T'))
+    tested = bool(contig) and bool(succ_rets) and all(h.must_pass_edges(r.id, contig) for r in succ_rets)
+    run.ob('B5/only-contiguous-views-are-accepted', '_my_PyObject_GetContiguousBuffer',
+           'PyObject_GetBuffer(x, view, %s) then PyBuffer_IsContiguous' % cx.render(flagarg), simple or tested, tu.where(gb[0]),
+           'request flags %s %s strides; the contiguity test %s every successful return' % (
+               [hex(v.v) for v in vals], 'do not ask for' if simple else 'ask for', 'dominates' if tested else 'does NOT dominate'))
     for cn in h.nodes:
         if cn.kind == 'cond' and 'PyBuffer_IsContiguous' in cx.render(cn.ast):
             for t, l in cn.succ:
